@@ -23,6 +23,7 @@ import (
 	"log/slog"
 	"net"
 	"net/http"
+	"net/http/httptest"
 	"os"
 	"sort"
 	"strconv"
@@ -90,6 +91,8 @@ type caseT struct {
 	Idx    int     `json:",omitempty"`
 	Poison bool    `json:",omitempty"` // responses on a failing writer were served (unjudged) just before the group
 	Seq    bool    `json:",omitempty"` // the members are served one after the other (state kept between requests)
+	// Contract: a contract-only case (line tag K); every other field is unused then
+	Contract *contractT `json:",omitempty"`
 }
 
 // primT is one primitive call on the ResponseWriter (the model's alphabet).
@@ -1138,8 +1141,88 @@ func modelTag() string {
 	return "N"
 }
 
+// contract-only cases (line tag K): the handler writes through the compression middleware onto a writer that fails —
+// from its FailAt-th Write on (a connection that went away) or only then (a transient fault). There is no "same response
+// without the middleware" on a failing connection; what is judged is the io.Writer clause of the statement on every
+// result the handler sees: 0 <= n <= len(p), and n < len(p) only together with an error.
+type contractT struct {
+	Opt       optT
+	AE        string
+	CT        string // "" = no Content-Type set
+	Sizes     []int
+	FailAt    int
+	Transient bool
+}
+
+type failingWriter struct {
+	http.ResponseWriter
+	calls, failAt int
+	transient     bool
+}
+
+func (f *failingWriter) Write(b []byte) (int, error) {
+	f.calls++
+	if f.calls == f.failAt || (!f.transient && f.calls > f.failAt) {
+		return 0, errors.New("connection went away")
+	}
+	return f.ResponseWriter.Write(b)
+}
+
+func (f *failingWriter) Flush() {}
+
+func genContract(r *hx.Rand) *contractT {
+	k := &contractT{AE: hx.Pick(r, []string{"gzip", "br", "gzip, br"}), CT: hx.Pick(r, []string{"text/plain", "", "application/json"}),
+		FailAt: r.Range(1, 3), Transient: r.Chance(1, 3)}
+	k.Opt.MinSize = hx.Pick(r, []int{0, 10, 64, 600, 1024})
+	n := r.Range(1, 5)
+	for i := 0; i < n; i++ {
+		k.Sizes = append(k.Sizes, hx.Pick(r, []int{1, 6, 9, 10, 63, 64, 511, 512, 600, 1024, 5000, 70000, r.Range(1, 2000)}))
+	}
+	return k
+}
+
+func (k *contractT) emit(id string, st *hx.Stats) string {
+	type res struct {
+		l, n int
+		ok   bool
+	}
+	var outs []res
+	r := router.MustNew()
+	r.Use(func(c *router.Context) {
+		c.Response = &failingWriter{ResponseWriter: c.Response, failAt: k.FailAt, transient: k.Transient}
+		c.Next()
+	})
+	r.Use(recovery.New(recovery.WithoutLogging()))
+	r.Use(compression.New(buildOpts(k.Opt)...))
+	r.GET("/p", func(c *router.Context) {
+		if k.CT != "" {
+			c.Response.Header().Set("Content-Type", k.CT)
+		}
+		for i, sz := range k.Sizes {
+			p := bytes.Repeat([]byte{byte('a' + i)}, sz)
+			n, err := c.Response.Write(p)
+			outs = append(outs, res{sz, n, err == nil})
+		}
+	})
+	req := httptest.NewRequest(http.MethodGet, "/p", nil)
+	req.Header.Set("Accept-Encoding", k.AE)
+	r.ServeHTTP(httptest.NewRecorder(), req)
+	l := hx.NewLine(id).Tok("K").Tok(fmt.Sprintf("failAt=%d", k.FailAt)).Sep().Nat(len(outs))
+	for _, o := range outs {
+		l.Nat(o.l).Tok(strconv.Itoa(o.n)).Bool(o.ok)
+	}
+	if st != nil {
+		st.Case(l.String(), true)
+		st.Count("contract_only_failing_writer")
+	}
+	return l.String() + hx.Comment(caseT{Contract: k})
+}
+
 // emit runs one case (alone) and renders its line.
 func emit(id string, k *caseT, st *hx.Stats) string {
+	if k.Contract != nil {
+		return k.Contract.emit(id, st)
+	}
 	if len(k.Group) > 0 {
 		// replay of one member of an overlap group: the whole group runs again, this member's line is printed
 		return emitGroup(id, k.Group, st, k.Idx, k.Poison, k.Seq)[0]
@@ -1351,6 +1434,15 @@ func main() {
 		for i, k := range fixedCases() {
 			fmt.Fprintln(w, emit(fmt.Sprintf("c15-fix-%d", i), k, st))
 		}
+		if os.Getenv("C15_MODEL") != "asis" {
+			// a held-back write, then the write that takes the decision on a writer that fails at once
+			for i, k := range []*contractT{
+				{Opt: optT{MinSize: 10}, AE: "gzip", CT: "text/plain", Sizes: []int{6, 9, 3}, FailAt: 1},
+				{Opt: optT{MinSize: 600}, AE: "br", CT: "", Sizes: []int{511, 512}, FailAt: 1, Transient: true},
+				{Opt: optT{MinSize: 0}, AE: "gzip", CT: "text/plain", Sizes: []int{70000, 10}, FailAt: 2}} {
+				fmt.Fprintln(w, k.emit(fmt.Sprintf("c15-fixk-%d", i), st))
+			}
+		}
 		for i, g := range fixedGroups() {
 			for _, line := range emitGroup(fmt.Sprintf("c15-fixg-%d", i), g, st, -1, i%2 == 1, false) {
 				fmt.Fprintln(w, line)
@@ -1369,6 +1461,10 @@ func main() {
 				for _, line := range emitGroup(fmt.Sprintf("c15-%d-%d", a.Seed, i), genSeq(r, a.Tier), st, -1, false, true) {
 					fmt.Fprintln(w, line)
 				}
+				continue
+			}
+			if os.Getenv("C15_MODEL") != "asis" && i%25 == 13 {
+				fmt.Fprintln(w, genContract(r).emit(fmt.Sprintf("c15-%d-%d", a.Seed, i), st))
 				continue
 			}
 			k := genCase(r, a.Tier)
